@@ -295,11 +295,20 @@ def _item_field(b, operand, next_call):
 
 
 ENTRY = {
-    "bench_values": ("move", "benchmark::BenchContext::bench_loop_threaded"),
-    "bench_local_values": ("move", "benchmark::BenchContext::bench_loop_local"),
-    "bench_refs": ("lend", "benchmark::BenchContext::bench_loop_threaded"),
-    "bench_local_refs": ("lend", "benchmark::BenchContext::bench_loop_local"),
+    "bench_values": ("move", "threaded"),
+    "bench_local_values": ("move", "local"),
+    "bench_refs": ("lend", "threaded"),
+    "bench_local_refs": ("lend", "local"),
 }
+
+
+def loop_functions(prog, crate):
+    """(shared sampling function, its single-threaded wrapper), identified structurally (rules/sampling.py)."""
+    from .sampling import Sampling
+    S = Sampling(prog, crate)
+    if S.body is None or S.loop is None:
+        return None, None
+    return S.body, S.local_wrapper()
 
 
 def closure_arg(prog, b, operand):
@@ -312,18 +321,24 @@ def closure_arg(prog, b, operand):
 
 
 def r01_3(ctx, prog, crate):
-    for fn, (mode, loop_fn) in ENTRY.items():
+    bt_, bl_ = loop_functions(prog, crate)
+    if not ctx.anchor("R01.3", "shared sampling function and its single-threaded wrapper", (1 if bt_ else 0) + (1 if bl_ else 0), 2):
+        return
+    loops = {"threaded": bt_.path, "local": bl_.path}
+    for fn, (mode, which) in ENTRY.items():
+        loop_fn = loops[which]
         b = prog.one("benchmark::Bencher::" + fn, crate)
         if not ctx.anchor("R01.3", "Bencher::" + fn, 1 if b else 0, 1):
             continue
         ctx.saw(b)
-        cs = [c for c in b.live_calls() if c.callee.startswith("benchmark::BenchContext::bench_loop_")]
+        cs = [c for c in b.live_calls() if c.callee in loops.values()]
         if not ctx.check(len(cs) == 1 and cs[0].callee == loop_fn, "R01.3", [fn, "loop"],
                          "`%s` calls %s, expected exactly %s" % (fn, [c.callee for c in cs], loop_fn), b.where(0)):
             continue
         c = cs[0]
         g = {s.label() for s in b.prov.op_src(c.args[1])}
-        ctx.check(g == {"param:self.config.gen_input"}, "R01.3", [fn, "generator-forwarded"], "generator argument derives from %s" % sorted(g), c.line())
+        ctx.check(len(g) == 1 and list(g)[0].startswith("param:self.config.") and list(g)[0].count(".") == 2, "R01.3", [fn, "generator-forwarded"],
+                  "generator argument derives from %s, expected the generator stored in self.config" % sorted(g), c.line())
         ad_b = closure_arg(prog, b, c.args[2])
         ad_d = closure_arg(prog, b, c.args[3])
         if not ctx.check(ad_b is not None and ad_d is not None, "R01.3", [fn, "adapters"], "adapters are not local closures", c.line()):
@@ -577,8 +592,7 @@ def r01_5(ctx, prog, crate, rec):
 
 def r01_6(ctx, prog, crate):
     # (a) _local entry points only call bench_loop_local -- R01.3
-    bl = prog.body("benchmark::BenchContext::bench_loop_local", crate)
-    bt = prog.body("benchmark::BenchContext::bench_loop_threaded", crate)
+    bt, bl = loop_functions(prog, crate)
     if not ctx.anchor("R01.6", "bench_loop_local / bench_loop_threaded", (1 if bl else 0) + (1 if bt else 0), 2):
         return
     ctx.saw(bl)
@@ -633,7 +647,7 @@ def r01_6(ctx, prog, crate):
     # who may call SyncWrap::new
     sites = [c for c in prog.callers_of("util::sync::SyncWrap::new", crates=[crate]) if "::tests::" not in c.body.path]
     for c in sites:
-        ok = c.body.path in ("benchmark::BenchContext::bench_loop_local", "util::thread::pool::ThreadPool::par_extend")
+        ok = c.body.path in (bl.path, "util::thread::pool::ThreadPool::par_extend")
         ctx.check(ok, "R01.6", ["SyncWrap::new", c.body.path], "the unsafe Sync wrapper is created in `%s`" % c.body.path, c.line())
     ctx.anchor("R01.6", "SyncWrap::new call sites", sites, 4)
     # Sync bounds of the threaded entry points
@@ -644,7 +658,7 @@ def r01_6(ctx, prog, crate):
             continue
         for w in want:
             ctx.check(w in f["preds"], "R01.6", ["Bencher::" + fn, w], "`Bencher::%s` no longer requires `%s`" % (fn, w), None, detail={"fn": fn, "bound": w})
-    f = prog.fn_fact("benchmark::BenchContext::bench_loop_threaded", crate)
+    f = prog.fn_fact(bt.path, crate)
     if f:
         syncs = [p for p in f["preds"] if p.endswith(": std::marker::Sync")]
         ctx.check(len(syncs) == 3, "R01.6", ["bench_loop_threaded", "three-Sync-bounds"], "Sync bounds on the shared loop: %s" % syncs, None)
